@@ -1235,8 +1235,13 @@ package larking
 //@   ensures [unpadded-accepted C14] B64OK("raw", v) ==> err == nil
 //@   ensures [invalid-rejected C14] !B64OK("std", v) && !B64OK("raw", v) ==> err != nil
 
+//@ det StrLower "strings.ToLower" string
+// (header names are case-insensitive: a metadata key spelled Grpc-Status is the
+// protocol's grpc-status)
 //@ func setOutgoingHeader serves C14 partial ghost make
 //@   assert at "header[textproto.CanonicalMIMEHeaderKey(k)] = vs" [reserved-keys-not-forgeable C14] !ProtocolKey(k)
+//@   assert at "header[textproto.CanonicalMIMEHeaderKey(k)] = vs" [reserved-keys-not-forgeable-in-any-case C14] !ProtocolKey(StrLower(k))
+//@   witness verifWitnessMixedCaseReserved for reserved-keys-not-forgeable-in-any-case
 //@ func newIncomingContext serves C14 partial ghost make nil
 //@   assert at "md[k] = vs" [protocol-keys-not-injected C14] !ProtocolKey(k)
 
